@@ -23,6 +23,10 @@ def messages():
               '<ns0:AuthnRequest xmlns:ns0="urn:oasis:names:tc:SAML:2.0:protocol" ID="a"><ns1:Issuer xmlns:ns1="urn:oasis:names:tc:SAML:2.0:assertion">line1\nline2</ns1:Issuer></ns0:AuthnRequest>',
               '<Response xmlns="urn:oasis:names:tc:SAML:2.0:protocol" ID="a&amp;b">\n  <x xmlns="urn:x">a &lt; b\n\n c</x>\n</Response>',
               u'<samlp:Response xmlns:samlp="urn:oasis:names:tc:SAML:2.0:protocol" ID="\xe5">FuddleMuddle xmlns:ns1 &gt; http://example.org/</samlp:Response>',
+              # a message that uses the very namespace (and prefixes) of the placeholder element the packer swaps out
+              '<ns0:AuthnRequest xmlns:ns0="urn:oasis:names:tc:SAML:2.0:protocol" ID="a"><ns0:Extensions><ns1:Ext xmlns:ns1="http://example.org/">e</ns1:Ext>'
+              '</ns0:Extensions></ns0:AuthnRequest>',
+              '<ns1:FuddleMuddle xmlns:ns1="http://example.org/" xmlns:ns2="http://example.org/">x<ns2:y/></ns1:FuddleMuddle>',
               # characters that are special in regular-expression replacement templates and format strings
               '<samlp:Response xmlns:samlp="urn:oasis:names:tc:SAML:2.0:protocol" ID="C:\\temp\\1">CORP\\nancy \\g&lt;0&gt; \\1 %s {0} $1</samlp:Response>']
     for d, b in itertools.product(decls, bodies):
@@ -46,7 +50,7 @@ def run(tier, seed):
         except Exception as e:
             violations.append({'name': 'bounded[soap-roundtrip]', 'what': 'message %r raised %r' % (msg[:80], e)})
     return {'name': 'soap_roundtrip', 'label': 'BOUNDED (SOAP packer/unpacker exercised natively; not a proof)',
-            'bound': '%d messages: 6 XML-declaration spellings x 5 bodies (prefixes, default namespace, newlines, entities, non-ASCII, look-alike text, backslashes / template characters)' % n,
+            'bound': '%d messages: 6 XML-declaration spellings x 7 bodies (prefixes, default namespace, newlines, entities, non-ASCII, look-alike text, backslashes / template characters)' % n,
             'evaluations': n, 'element_identical': ok, 'violations': violations}
 
 
